@@ -4,6 +4,29 @@ ROOT = os.path.dirname(os.path.dirname(os.path.abspath(__file__)))
 ALL = ["C%02d" % i for i in range(1, 21)]
 
 CHECKS = {
+ "C01": dict(
+   technique="Lean 4 proof over a faithful control model of the block pass and faithful index-loop models of the line recognisers + trace validation of the real main loop (sys.monitoring, no source change) + function-level recogniser correspondence + exhaustive tokenization sweep with a deterministic work budget",
+   design_ref="DESIGN.md §6 C01, §5.3, §8 F-HANG/F-IDX/F-X05",
+   text="Theorems over Verif.Model.MainLoop (control of __parse_blocks_pass: line source, requeue list, line_number, ignore flag, closing flags; the per-line machinery is an oracle "
+        "constrained by the protocol Legal read off the two sites that build a RequeueLineInfo): mainloop_terminates (every Legal run has at most (n+1)(n+2)/2 + n iterations plus one per "
+        "block-quote restart — exact accounting, bound attained), mainloop_terminates_bounded_depth (each restart shrinks the token stack, so with stack depth <= K at most (K+1)((n+1)(n+2)/2+n)+1 "
+        "iterations), mainloop_no_assertion (the loop's own asserts cannot fire), mainloop_line_numbers(_exact) (the line number handed down is the line's position; it is the physical line when "
+        "requeues hand the current line back verbatim), mainloop_consumes_all. Over Verif.Model.Recognisers (explicit IndexError/AssertionError results, never a default): recognisers_total for "
+        "collect_while_character/one_of, collect_backwards, detabify_string, is_thematic_break, is_atx_heading, the ATX closing-sequence split, is_fenced_code_block (+open/close tests), the setext "
+        "underline test, __is_start_ulist/olist, is_ulist_start/is_olist_start on a list-free stack, block-quote counting (partial: index inside the line, with the diverging witness), and "
+        "thematic_spec / atx_spec / fence_open_spec / setext_spec / blank_spec (accepts exactly the CommonMark sentence, written as a decomposition of the line), indentation_spec (tab stop 4). "
+        "Over Verif.Model.CloseLoop: closeloop_terminates_partial (the list-closing loop ends if every repeating iteration shrinks the stack) and closeloop_needs_variant (the state recorded "
+        "from '  - a\\n- 1)' is a fixed point of the do_not_emit branch that asks for a repeat: no variant exists; Lean rejects the fuel-less definition, re-checked every run). spec_total: the "
+        "reference (LeanMark) is total. Tie: every recogniser vs the REAL function on all PREFIX x BODY lines and all strings of length <= 6 over its own alphabet (about 12 M calls, thorough); every "
+        "iteration of the real main loop (about 1.9 M iterations of 421 k documents, 35 k requeues) must be a Legal model transition leaving line_number / len(requeue) / ignore flag / "
+        "did_start_close / pending definition lines / next line as the model says; every iteration of the real list-closing loop vs the model iteration. Oracle: transform() returns without "
+        "BadTokenizationError within 5 s^2 + 4800 s + 6000 LINE events (s = chars + 8 lines; measured maximum 0.24 of the budget) on d1, a 120 k hash slice of d2 + all core d2, d2 without final "
+        "newline (10 k), all of d3, the repo corpus, and D_wrap (54 k), plus scaling series k = 1..256 (log-log slope <= 2.5, measured 1.89).",
+   note="Partial: the ~150 other while-loops and several hundred asserts inside the container / leaf / inline handlers are not modelled — they are reached by the enumeration only; Legal is a "
+        "validated hypothesis, not a theorem about link_reference_definition_helper.py; CPU time is a runtime fact (the model gives the quadratic bound on line visits, the measured LINE-event "
+        "counts cover the rest); recogniser models cover the tab-free paths of fence close / setext / list starts on a stack without lists; close_required_lists is a parameter of the loop model. "
+        "Trusted: Lean kernel; tools/mainlooplib.py (sys.monitoring recorder), tools/recoglib.py (sentinel stubs for collaborators). Findings: F-HANG (19 listed inputs), 36 tokenization-failure "
+        "call sites F-TOK-* (8.9 k listed inputs in findings/C01.inputs.json, 86 % of them involve a TAB after a container marker), F-X05 (render)."),
  "C02": dict(
    technique="Lean 4 proof over faithful models of the in-band marker codec, tab expansion, final-newline correction and pragma re-insertion + exhaustive "
              "function-level correspondence with the real (private) functions + document-level identity oracle on registered strata with footprint-identified findings",
@@ -80,6 +103,36 @@ CHECKS = {
         "by the comparison). Text tokens and soft breaks are not checked. html-block: the column where the block's own <= 3 columns of indentation start is accepted (pymarkdown's convention). "
         "Findings on the pinned tree: F-LISTCOL, F-BQNESTCOL, F-TABPOS (footprint predicates, about 9 800 tokens in the thorough sweep), and 733 exact inputs in findings/C05.inputs.json "
         "(F-C05-INLINECOL after multi-line inline elements, F-C05-BLOCKPOS, F-C05-HTMLCOL incl. a negative column, F-C05-LISTPOS, F-C05-PRAGMA-INSIDE, F-C05-PRAGMA)."),
+ "C06": dict(
+   technique="Reference-model correspondence: Lean 4 reference conditions written from the rule pages over LeanMark's block structure, compared with the real rules run alone; "
+             "Lean 4 proof that pins each condition to its documented sentence and, for the line rules, proves the code-shaped (faithful) model equal to the documented one; "
+             "page-example oracle independent of the model",
+   design_ref="DESIGN.md §6 C06, §5.7",
+   text="Verif.Model.RuleSpec.* gives, for each of the 24 rules, cond : documented configuration -> lines -> LeanMark events -> [(line, column?)], written from "
+        "newdocs/src/plugins/rule_mdXXX.md only. Theorems (Verif.Props.C06, all unbounded): md009_iff, md010_iff (+ md010_one_per_tab), md012_iff, md012_faithful_eq_runs, md013_iff "
+        "(i reported iff len(line i) > limit(kind i) and kind not switched off and (strict or white space beyond the limit)), md047_iff (clean iff the document is empty or ends with a "
+        "newline character), md022_clean_iff, md025_clean_iff/_count, md001Go_clean_iff, md003Go_clean_iff, isDupOf_iff (MD024), md031_iff, md032_nested_silent, md035_fixed_iff, md040_iff, "
+        "md041_heading/_para/_container, md042_iff, md046_fenced_iff/_indented_iff, md048_backtick_iff/_tilde_iff, md004_dash_iff, md018Text_iff, md026Text_iff: they only FIX THE MEANING of the "
+        "reference. For the line rules the faithful models Verif.Model.LineRules (mirror of rule_md_009/010/012/047.py and of __next_line_fix_mode_end) are connected to the reference by real "
+        "theorems: md010_faithful_eq_spec(_default) (columns len(detabify(prefix))+1 = tab-stop columns), md047_faithful_eq_spec, md009_faithful_eq_spec_partial (hypotheses: list_item_empty_lines "
+        "off, br_spaces != 1, no tab in trailing white space — each excluded point has a decide-checked witness and is a finding), and the fixes satisfy md009/md010/md047_fix_removes_own_trigger "
+        "(H1 of C09), _fix_idempotent, _fix_only_whitespace / md047_fix_only_newline (C08), md047_fix_iff_scan (except the empty document), and the pairwise interference table: "
+        "md009_fix_creates_no_md010, md009/md010_fix_creates_no_md047, md010_md047_commute, md047_fix_creates_no_md009_md010, with decide-checked counter-examples for MD010 -> MD009 "
+        "(a line ending in a tab) and for MD009/MD047 not commuting. THE PROPERTY ITSELF is decided by the correspondence: every rule alone, 1-8 documented configuration values each (74 "
+        "configurations), real scan vs cond on every document of the pool (rule test resources, every repo parser-test source, all one-line PREFIX x BODY documents, all two-line core documents, 1788 generated heading-sequence / link-form / "
+        "hash-line documents) that is in LeanMark's scope and on which pymarkdown's HTML equals LeanMark's: thorough = all 27,834 of 28,712 documents (2.06M evaluations, 260k non-trivial), "
+        "quick = seeded sample of 2000. Secondary tie: LineRules "
+        "scan (with columns) and fix (bytes) vs the real scan/fix under the line context read off LeanMark. Oracle: 97 examples copied from the pages (every Failure Scenario must be reported, "
+        "every Correct Scenario must not) evaluated on the real rule and on cond.",
+   note="Partial: reference-model correspondence — the theorems fix the meaning of the reference and (MD009 partial, MD010, MD047) its equality with the faithful model; the 20 token rules are "
+        "explored, not proved. The reference is my reading of the pages: where a page is silent about WHERE a report goes the anchor line is a stated convention (columns compared only for "
+        "MD010/MD013); readings chosen among ambiguous ones are marked in the RuleSpec files (MD022 exact count, MD012 runs per container scope, MD019 in columns and for non-closed headings, "
+        "MD032 'normally' inside a block quote = relative to that quote, MD047 = at least one final newline). Outside the claimed set: front-matter (extension off), MD013 stern (page too vague; "
+        "only its one unambiguous consequence is probed), MD024 siblings_only beyond the page example, LeanMark-out-of-scope or HTML-disagreeing documents (C03's subject), crashing rules (C07's). "
+        "Findings (17 families, 2741 exact inputs in findings/C06.inputs.json, plus 5 page examples the real rule contradicts): MD009 list_item_empty_lines / br_spaces=1, MD010 indented code with "
+        "code_blocks=False, MD012 list-marker lines counted as blank, MD013 SetExt text lines measured as the preceding element / stern inverted, MD018 seven hashes, MD019 empty heading, MD022/MD031/"
+        "MD032 blind next to empty containers and at nested boundaries, MD023 inside multi-line links, MD024 Atx vs SetExt never equal, MD041 on blank documents (F-BLANKDOC). Trusted: Lean kernel, "
+        "LeanMark (validated separately), the harness."),
  "C07": dict(
    technique="Lean 4 proof over a faithful rule-engine model + engine correspondence through probe plug-ins + direct oracle sweep",
    design_ref="DESIGN.md §6 C07",
